@@ -55,10 +55,11 @@ class SpecError(Exception):
 
 
 class Edit:
-    __slots__ = ('start', 'end', 'text', 'tag')
+    __slots__ = ('start', 'end', 'text', 'tag', 'prio')
 
     def __init__(self, start, end, text, tag):
         self.start, self.end, self.text, self.tag = start, end, text, tag
+        self.prio = {'marker': 0, 'splice': 1}.get(tag, 2)
 
 
 class Out:
@@ -272,7 +273,9 @@ class Extractor:
                     edits.append(Edit(ls, e + 1, '', 'R1'))
                 else:
                     edits.append(Edit(m.start(), e, '', 'R1'))
-        for m in find_code(item, mask, r'\bpub\s*(\((?:crate|super|self|in [^)]*)\))?\s+'):
+        # `pub` is stripped from fn items only (a pub fn may not mention private spec fns in its
+        # contract); visibility of types and fields is kept
+        for m in find_code(item, mask, r'\bpub\s*(\((?:crate|super|self|in [^)]*)\))?\s+(?=(?:const\s+)?(?:unsafe\s+)?fn\b)'):
             edits.append(Edit(m.start(), m.end(), '', 'R1'))
 
         body_open = body_close = None
@@ -402,13 +405,15 @@ class Extractor:
                     edits.append(Edit(mm.start(), mm.end(), '|_e|', 'R9'))
             elif head == 'rw enumerate':
                 n = 0
-                pat = r'for\s*\(\s*(\w+)\s*,\s*([^)]*?|\([^)]*\))\s*\)\s*in\s+([\w\.]+?)\.iter\(\)\.enumerate\(\)(\.rev\(\))?\s*\{'
+                pat = r'for\s*\(\s*(\w+)\s*,\s*([^)]*?|\([^)]*\))\s*\)\s*in\s+([\w\.]+?)\.iter\(\)\.enumerate\(\)(\.rev\(\))?\s*(?=\{)'
                 for mm in find_code(item, mask, pat, body_open, body_close):
                     idx, patv, seq, rev = mm.group(1), mm.group(2), mm.group(3), mm.group(4)
                     if rev:
                         raise SpecError('R7 .rev() form must be given by //@subst R7')
-                    rep = 'for %s in 0..%s.len() { let %s = &%s[%s];' % (idx, seq, patv, seq, idx)
-                    edits.append(Edit(mm.start(), mm.end(), rep, 'R7'))
+                    edits.append(Edit(mm.start(), mm.end(), 'for %s in 0..%s.len() ' % (idx, seq), 'R7'))
+                    e2 = Edit(mm.end() + 1, mm.end() + 1, [(' let %s = &%s[%s];' % (patv, seq, idx), '<R7>', 0)], 'splice')
+                    e2.prio = -1
+                    edits.append(e2)
                     n += 1
                 if n == 0:
                     raise LostAnchor('%s: no enumerate loop for R7' % qual)
@@ -475,8 +480,7 @@ class Extractor:
             edits.append(Edit(body_open + 1, body_open + 1, [('/*@ENTRY %s@*/' % qual, '<entry>', 0)], 'marker'))
 
         # --- apply edits (original coordinates)
-        order = {'marker': 0, 'splice': 1}
-        edits.sort(key=lambda e: (e.start, e.end, order.get(e.tag, 2)))
+        edits.sort(key=lambda e: (e.start, e.end, e.prio))
         # drop edits nested inside a replaced range (e.g. R1 inside a hole)
         pruned = []
         cover_end = -1
